@@ -77,6 +77,13 @@ def run(ctx, replay=None):
     # both thresholds crossed at once: the history that wedged the code before the event queue became unbounded
     below += [{"sessions": n, "hold_tick": True, "reassoc": True, "deadline_ms": 6000}
               for n in ([rnd.randint(530, 800)] if ctx.tier == "quick" else [513, 600, 1000])]
+    # the loop held in the middle of the bulk removal while the periodic server fills the report channel and waits: the
+    # rest of the loop's turn must not need the periodic server (a lock shared between posting and reporting would wedge)
+    below += [{"sessions": n, "hold_tick": True, "reassoc": True, "hold_loop": True, "deadline_ms": 6000}
+              for n in ([rnd.randint(200, 400)] if ctx.tier == "quick" else [129, 140, 300, 700])]
+    # a session with packets queued (a few, a full queue) is deleted: the loop must get through closing its queues
+    below += [{"sessions": 1, "burst": b, "delete_after_burst": True, "deadline_ms": 4000}
+              for b in ([rnd.randint(1, 5), rnd.randint(513, 700)] if ctx.tier == "quick" else [1, 2, 511, 512, 513])]
     above = []
     if replay:
         r = json.load(open(replay))
@@ -117,6 +124,10 @@ def run(ctx, replay=None):
                            "exchange, %s event(s) waiting, nothing else posted): it sleeps with work pending" % (pp.get("stuck_at"), pp.get("queued")),
                            "case": {"mode": "perio_pingpong", "rounds": rounds, "timeout_ms": 1500}, "result": pp})
     coverage["evaluations"] = len(results)
+    coverage["hold_loop_probes"] = [{"sessions": r["case"]["sessions"], "reports_waiting_when_loop_released": r["result"].get("sr_len_at_release"),
+                                     "answered": r["result"].get("answered")} for r in results if r["case"].get("hold_loop")]
+    coverage["delete_after_burst_probes"] = [{"burst": r["case"]["burst"], "answered": r["result"].get("answered")}
+                                             for r in results if r["case"].get("delete_after_burst")]
     coverage["distinct_nontrivial"] = len({r["case"]["sessions"] for r in results if r["case"]["sessions"] >= 100})
     coverage["samples"] = results[:3]
     if not ctx.violations and broken:
